@@ -223,12 +223,31 @@ def pair_attr_receiver(ctx, cls, fc, recv_src, rets):
             continue
         credited = substitute_attrs(recv, sub)
         ok = norm_src(credited) == norm_src(R)
+        if not ok:
+            # e.g. the credited designator uses an index and the returned cell is held by reference
+            cr2 = CS_unexpand(fc, credited, at)
+            ok, _how = CS.cells_equal(fc, cr2, val.func.value, at)
         n_ok += ok
         ctx.ob("R04-PAIR", ok, cls.file, fc.qual, norm_src(r),
                "receive_reward credits %s = %s, the cell whose representative is returned" % (recv_src, norm_src(credited)) if ok else
                "receive_reward will credit %s = %s, but the point returned here belongs to %s" % (recv_src, norm_src(credited), norm_src(R)),
                r.lineno)
     return n_ok
+
+
+def CS_unexpand(fc, e, at):
+    """Replace `self.partition.get_node_list()` by the local alias used in this function, if there is exactly one."""
+    aliases = [n for n, in [(k,) for k in set(x.id for x in ast.walk(fc.fn) if isinstance(x, ast.Name))]
+               if any(r[0] == "assign" and norm_src(r[1]) in CS.NODELIST_CALLS for _, r in fc.defs_of(n))]
+    if len(aliases) != 1:
+        return e
+
+    class S(ast.NodeTransformer):
+        def visit_Call(self, n):
+            if norm_src(n) in CS.NODELIST_CALLS:
+                return ast.Name(id=aliases[0], ctx=ast.Load())
+            return self.generic_visit(n)
+    return S().visit(ast.parse(ast.unparse(e), mode="eval").body)
 
 
 def substitute_attrs(e, sub):
@@ -271,30 +290,8 @@ def lockstep_list(fc, list_src, cursor):
         if twin[0].id < n.id and arg == cursor:
             return False, "append happens before the cursor moves"
         # the new cursor is a child of the old one
-        v = r[1]
-        child = False
-        if isinstance(v, ast.Subscript) and norm_src(v.value) in (cursor + ".get_children()", cursor + ".children"):
-            child = True
-        elif isinstance(v, ast.Name):
-            # e.g. maxchild, selected from `children = cursor.get_children()`
-            dsv, _ = fc.reaching(v.id, n)
-            srcs = set()
-            for nn, rr in dsv:
-                if rr[0] == "assign":
-                    srcs.add(norm_src(rr[1]))
-                elif rr[0] == "for":
-                    srcs.add("EACH " + norm_src(rr[1]))
-            kids = set()
-            for s in srcs:
-                base = s.replace("EACH ", "")
-                b = base.split("[")[0]
-                dd, _ = fc.reaching(b, n) if b.isidentifier() else ([], True)
-                for _, r3 in dd:
-                    if r3[0] == "assign":
-                        kids.add(norm_src(r3[1]))
-            child = bool(kids) and kids <= {cursor + ".get_children()", cursor + ".children"}
-        if not child:
-            return False, "the new cursor '%s' is not taken from the old cursor's children" % norm_src(v)
+        if not CS.is_child_of(fc, r[1], cursor, n):
+            return False, "the new cursor '%s' is not taken from the old cursor's children" % norm_src(r[1])
     return True, "%s = [start] + one append per step to a child" % list_src
 
 
